@@ -26,6 +26,8 @@ def _helper(state, expected_name=None):
 
 def replay_handler(method, argname):
     def replay(o):
+        if "raises:" not in o.get("goal", ""):
+            return None, "no native evaluator for this clause"
         m = o.get("model") or {}
         path = o.get("path") or ""
         v = m.get(argname)
@@ -50,3 +52,155 @@ def replay_handler(method, argname):
 
 
 REPLAYS = {"_handle_hello": replay_handler("_handle_hello", "server_hello"), "_handle_handshake": replay_handler("_handle_handshake", "msg")}
+
+
+# ------------------------------------------------------------------------------------------------------------
+# bounded stand-in (never counted as proved): a real Noise_NNpsk0 responder (the noise library itself, same psk and
+# prologue) talks to the real helper; the server stream hello ++ handshake ++ N data frames is cut at every pair of
+# positions (all 2-cut segmentations up to a stride) and the delivered packets / readiness are compared with what was sent.
+# ------------------------------------------------------------------------------------------------------------
+def _frame(payload):
+    n = len(payload)
+    return bytes((1, (n >> 8) & 0xFF, n & 0xFF)) + payload
+
+
+def _session(cuts, name=b"dev", expected=None, msgs=((42, b"from device"), (7, b""), (300, b"x" * 40))):
+    import asyncio as aio
+    from aioesphomeapi._frame_helper.noise import APINoiseFrameHelper, ESPHOME_NOISE_BACKEND
+    from noise.connection import NoiseConnection
+    loop = aio.new_event_loop()
+    aio.set_event_loop(loop)
+    try:
+        psk = bytes(range(32))
+        delivered, reported, writes = [], [], []
+        ready_at = []
+        conn = MagicMock()
+        conn.process_packet = lambda t, d: delivered.append((t, bytes(d), bool(h.ready_future.done() and not h.ready_future.cancelled() and h.ready_future.exception() is None)))
+        conn.report_fatal_error = lambda e: (reported.append(e), h.close())
+        h = APINoiseFrameHelper(connection=conn, noise_psk=base64.b64encode(psk).decode(), expected_name=expected, client_info="bounded", log_name="bounded")
+        tr = MagicMock()
+        tr.write = lambda d: writes.append(bytes(d))
+        h.connection_made(tr)
+        resp = NoiseConnection.from_name(b"Noise_NNpsk0_25519_ChaChaPoly_SHA256", backend=ESPHOME_NOISE_BACKEND)
+        resp.set_as_responder()
+        resp.set_psks(psk)
+        resp.set_prologue(b"NoiseAPIInit\x00\x00")
+        resp.start_handshake()
+        w = writes[0]
+        resp.read_message(w[7:])
+        stream = _frame(b"\x01" + name + (b"\x00" if name is not None else b"")) if name is not None else _frame(b"\x01")
+        stream += _frame(b"\x00" + resp.write_message(b""))
+        for t, p in msgs:
+            hdr = bytes(((t >> 8) & 0xFF, t & 0xFF, (len(p) >> 8) & 0xFF, len(p) & 0xFF))
+            stream += _frame(resp.encrypt(hdr + p))
+        pos = [0] + sorted(set(c for c in cuts if 0 < c < len(stream))) + [len(stream)]
+        kinds = (bytes, bytearray, memoryview)
+        for i in range(len(pos) - 1):
+            chunk = stream[pos[i]:pos[i + 1]]
+            try:
+                h.data_received(kinds[i % 3](chunk))
+            except Exception as e:      # noqa: BLE001   (asyncio would call connection_lost)
+                h.connection_lost(e)
+        got = [(t, d) for t, d, _ in delivered]
+        problems = []
+        if got != [(t, bytes(p)) for t, p in msgs]:
+            problems.append(f"delivered {got!r} != sent")
+        if any(not r for _, _, r in delivered):
+            problems.append("a message was delivered before readiness was signalled")
+        if reported:
+            problems.append(f"session reported {[type(e).__name__ for e in reported]}")
+        if not (h.ready_future.done() and h.ready_future.exception() is None):
+            problems.append("readiness not signalled")
+        return len(stream), problems
+    finally:
+        loop.close()
+        aio.set_event_loop(None)
+
+
+def bounded_noise_session(opts=None):
+    """All segmentations of the server stream into <= 3 chunks (cut positions on a stride), names present / absent."""
+    fails = []
+    n, _ = _session(())
+    stride = 1 if (opts or {}).get("tier") == "thorough" else 3
+    cands = list(range(1, n, stride))
+    import itertools
+    tried = 0
+    for name in (b"dev", None):
+        for k in (0, 1, 2):
+            for cuts in itertools.combinations(cands, k):
+                if k == 2 and (cuts[1] - cuts[0]) % (5 if stride > 1 else 2):
+                    continue
+                tried += 1
+                _, pr = _session(cuts, name=name, expected=("dev" if name else None))
+                if pr:
+                    fails.append({"cuts": list(cuts), "name": name.decode() if name else None, "problems": pr})
+                    if len(fails) >= 3:
+                        return fails
+    bounded_noise_session.tried = tried
+    return fails
+
+
+def bounded_noise_obligations(opts=None):
+    """The bounded Noise session stand-in as an obligation record (backend 'bounded:native', never counted as proved)."""
+    import time
+    from pyvc.obl import Obligation
+    t0 = time.time()
+    fails = bounded_noise_session(opts or {})
+    n = getattr(bounded_noise_session, "tried", 0)
+    return [Obligation(id="C03/bounded:noise-session/delivery-and-readiness-for-every-2-cut-segmentation", property="C03", kind="property",
+                       status="refuted" if fails else "discharged", backend="bounded:native", ms=round((time.time() - t0) * 1000, 1),
+                       goal=f"real responder (noise library) x real helper: {n} segmentations of hello++handshake++3 data frames into <= 3 chunks, names present/absent",
+                       function="aioesphomeapi._frame_helper.noise.APINoiseFrameHelper (whole session, bounded)",
+                       model=(fails[0] if fails else None), detail="bounded stand-in for L3-C03 (stream induction); not a proof")]
+
+
+def bounded_noise_close(opts=None):
+    """Bounded stand-in for C08 on the helper side: the connection closes the helper while handling the k-th data frame;
+    the frames behind it (same chunk or later chunks, every 1-cut segmentation) must not be delivered."""
+    import asyncio as aio
+    import itertools
+    from aioesphomeapi._frame_helper.noise import APINoiseFrameHelper, ESPHOME_NOISE_BACKEND
+    from noise.connection import NoiseConnection
+    fails = []
+    tried = 0
+    for close_at in (0, 1):
+        for cut in [None] + list(range(1, 200, 7)):
+            loop = aio.new_event_loop()
+            aio.set_event_loop(loop)
+            try:
+                psk = bytes(range(32))
+                delivered = []
+                conn = MagicMock()
+
+                def pp(t, d):
+                    delivered.append((t, bytes(d)))
+                    if len(delivered) == close_at + 1:
+                        h.close()                      # what APIConnection._cleanup does to its frame helper
+                conn.process_packet = pp
+                conn.report_fatal_error = lambda e: h.close()
+                h = APINoiseFrameHelper(connection=conn, noise_psk=base64.b64encode(psk).decode(), expected_name=None, client_info="b", log_name="b")
+                tr = MagicMock()
+                writes = []
+                tr.write = lambda d: writes.append(bytes(d))
+                h.connection_made(tr)
+                resp = NoiseConnection.from_name(b"Noise_NNpsk0_25519_ChaChaPoly_SHA256", backend=ESPHOME_NOISE_BACKEND)
+                resp.set_as_responder(); resp.set_psks(psk); resp.set_prologue(b"NoiseAPIInit\x00\x00"); resp.start_handshake()
+                resp.read_message(writes[0][7:])
+                h.data_received(_frame(b"\x01dev\x00") + _frame(b"\x00" + resp.write_message(b"")))
+                stream = b"".join(_frame(resp.encrypt(bytes((0, t, 0, 1)) + b"p")) for t in (5, 6, 7))
+                chunks = [stream] if cut is None or cut >= len(stream) else [stream[:cut], stream[cut:]]
+                for c in chunks:
+                    try:
+                        h.data_received(c)
+                    except Exception as e:   # noqa: BLE001
+                        h.connection_lost(e)
+                tried += 1
+                if len(delivered) != close_at + 1:
+                    fails.append({"closed_while_handling_frame": close_at, "cut": cut, "delivered": delivered})
+                    if len(fails) >= 2:
+                        return fails
+            finally:
+                loop.close()
+                aio.set_event_loop(None)
+    bounded_noise_close.tried = tried
+    return fails
